@@ -157,14 +157,17 @@ def evalReadouts : List (Name × Fn) → Env → Env → Except Err Env
 def dropData (dataKeys : List Name) (env : Env) : Env :=
   env.filter fun kv => !dataKeys.contains kv.1
 
+/-- `if include_readouts: …` on the dict `_get_args` returned -/
+def readoutPass (c : Content) (f : ArgFlags) (raw : Env) : Except Err Env :=
+  if f.readouts then evalReadouts c.readouts (raw ++ c.data) raw else pure raw
+
 /-- `get_args(variables, time, **flags)`: `pd.Series(raw).loc[get_arg_names(**flags)]` — the selected
     names in `get_arg_names` order, `KeyError` for a selected name the dict does not hold -/
 def getArgsSel (c : Content) (vars : Option (List (Name × Rat))) (t : Rat) (f : ArgFlags) :
     Except Err (List (Name × Rat)) := do
   let cache ← createCache c
   let env ← getArgsEnv c cache (resolveVars cache vars) t
-  let raw := dropData (omKeys c.data) env
-  let raw ← if f.readouts then evalReadouts c.readouts (raw ++ c.data) raw else pure raw
+  let raw ← readoutPass c f (dropData (omKeys c.data) env)
   (getArgNames c cache f).mapM fun k => do pure (k, ← raw.get k)
 
 /-- the flags `get_fluxes` passes -/
@@ -181,8 +184,7 @@ def getArgsSelTC (c : Content) (rows : List (Rat × List (Name × Rat))) (f : Ar
   let names := getArgNames c cache { f with time := false }
   rows.mapM fun (t, vars) => do
     let env ← getArgsEnv c cache vars t
-    let raw := dropData (omKeys c.data) env
-    let raw ← if f.readouts then evalReadouts c.readouts (raw ++ c.data) raw else pure raw
+    let raw ← readoutPass c f (dropData (omKeys c.data) env)
     names.mapM fun k => do pure (k, ← raw.get k)
 
 end Mxl
